@@ -54,7 +54,7 @@ var ErrTooLong = errors.New("length prefix is too long")
 func ReadData(r io.Reader) ([]byte, error) {
 	for {
 		var b [1]byte
-		_, err := r.Read(b[:])
+		_, err := io.ReadFull(r, b[:])
 		if err != nil {
 			// This is the only place we may return a real io.EOF.
 			return nil, err
@@ -66,7 +66,7 @@ func ReadData(r io.Reader) ([]byte, error) {
 			if i >= 2 {
 				return nil, ErrTooLong
 			}
-			_, err := r.Read(b[:])
+			_, err := io.ReadFull(r, b[:])
 			if err == io.EOF {
 				err = io.ErrUnexpectedEOF
 			}
